@@ -3,7 +3,8 @@ GEN = True
 STATELESS = False
 NO_SHRINK = True
 REQUIRED_BRANCHES = ["commit", "rmsnap", "rmseg", "rmseg-fail", "ropen", "rclose", "imerge", "equiv", "open", "close",
-                     "open-existing", "final", "op:second"]
+                     "open-existing", "final", "op:second",
+                     "crashreopen:held", "open-over-torn-snapshot", "crash"]
 ASSUMPTIONS = [
     "flock/unlink semantics: an exclusive non-blocking flock fails while another open file description holds a shared lock (readers, the writer's own loaded segments); os.Remove removes the name",
     "Event.exact (C13) as in C02 (a committed snapshot file is complete)",
